@@ -22,6 +22,7 @@ package engine
 
 import (
 	"fmt"
+	"go/ast"
 	"go/token"
 	"reflect"
 
@@ -173,7 +174,21 @@ func (r StructReplacer) Replace(d data.Data, cl Changelog, pos token.Pos) (refle
 			return reflect.Value{}, err
 		}
 	}
+	for _, name := range nonEmptyLists[r.Type] {
+		if v.FieldByName(name).Len() == 0 {
+			return reflect.Value{}, fmt.Errorf("cannot generate %v with an empty %v list", r.Type, name)
+		}
+	}
 	return v, nil
+}
+
+// nonEmptyLists names the lists go/ast does not expect to be empty: the
+// position of the node is taken from their first or last element. An elision
+// may stand for nothing, so "x := ..." can ask for an assignment without a
+// right-hand side; that has to be an error, not an AST that cannot be walked.
+var nonEmptyLists = map[reflect.Type][]string{
+	reflect.TypeOf(ast.AssignStmt{}): {"Lhs", "Rhs"},
+	reflect.TypeOf(ast.ValueSpec{}):  {"Names"},
 }
 
 // InterfaceReplacer replaces an interface value.
